@@ -19,12 +19,15 @@ var (
 	_ = token.EOF
 )
 
-//@ pred okP(p *Parser) = p != nil && is(p.tk, *lexer.Lexer) && okL(p.tk.(*lexer.Lexer)) && okPeeks(p.tk.(*lexer.Lexer)) && okCustoms(p.tk.(*lexer.Lexer))
+//@ pred okP(p *Parser) = p != nil && is(p.tk, *lexer.Lexer) && okL(p.tk.(*lexer.Lexer)) && okPeeks(p.tk.(*lexer.Lexer))
 
 //@ func (*Parser).ReadPeek [C01]
+//@   no-template
+//@   safe
+//@   terminates
 //@   requires okP(p)
 //@   ensures [parser-ok] okP(p) && p.tk == old(p.tk)
-//@   ensures [peek-is-a-located-token] p.peekToken != nil && p.peekToken.Token.Type != "" && p.peekToken.Token.Line >= 1
+//@   ensures [peek-is-a-located-token] p.peekToken != nil && (okCustoms(p.tk.(*lexer.Lexer)) ==> p.peekToken.Token.Type != "") && p.peekToken.Token.Line >= 1
 //@   ensures [progress] p.peekToken.Token.Type != token.EOF ==> lexG(p.tk.(*lexer.Lexer)) < old(lexG(p.tk.(*lexer.Lexer))) || (lexG(p.tk.(*lexer.Lexer)) == old(lexG(p.tk.(*lexer.Lexer))) && len(p.tk.(*lexer.Lexer).peeks) < old(len(p.tk.(*lexer.Lexer).peeks)))
 //@   ensures [no-regress] lexG(p.tk.(*lexer.Lexer)) <= old(lexG(p.tk.(*lexer.Lexer))) && (lexG(p.tk.(*lexer.Lexer)) == old(lexG(p.tk.(*lexer.Lexer))) ==> len(p.tk.(*lexer.Lexer).peeks) <= old(len(p.tk.(*lexer.Lexer).peeks)))
 //@   loop * invariant okP(p) && p.tk == old(p.tk)
@@ -40,7 +43,7 @@ var (
 //@   ensures [parser-ok] okP(p) && p.tk == old(p.tk)
 //@   ensures [tokens-shift] p.prevToken == old(p.curToken) && p.curToken == old(p.peekToken)
 //@   no-template
-//@   ensures [peek-is-a-located-token] p.peekToken != nil && p.peekToken.Token.Type != "" && p.peekToken.Token.Line >= 1
+//@   ensures [peek-is-a-located-token] p.peekToken != nil && (okCustoms(p.tk.(*lexer.Lexer)) ==> p.peekToken.Token.Type != "") && p.peekToken.Token.Line >= 1
 
 //@ func (*Parser).ParseVCLOrSnippet [C01]
 //@   requires p != nil
@@ -57,9 +60,8 @@ var (
 //@ func New [C01]
 //@   no-template
 //@   safe
-//@   requires nonnil(tk) && okL(tk.(*lexer.Lexer)) && okPeeks(tk.(*lexer.Lexer)) && okCustoms(tk.(*lexer.Lexer)) && tk.(*lexer.Lexer).customs != nil
-//@   ensures [non-nil C01] result != nil && fresh(result)
-//@   assigns heap
+//@   requires is(tk, *lexer.Lexer) && tk.(*lexer.Lexer) != nil && okL(tk.(*lexer.Lexer)) && len(tk.(*lexer.Lexer).peeks) == 0 && tk.(*lexer.Lexer).customs != nil
+//@   ensures [parser-ready] result != nil && fresh(result) && okP(result) && result.curToken != nil && result.peekToken != nil
 
 // the sweep: no reachable panic anywhere in the package
 // ... and every parser method keeps the parser well-formed: same tokenizer, lexer invariants,
